@@ -24,7 +24,51 @@ pub const WEIGHTED: &[(u32, &str)] = &[
 /// characters that software likes to treat specially at the very start / end of a text
 pub const EDGE_CHARS: &[&str] = &["\u{feff}", "\u{0}", "\u{200b}", "\u{2029}", "\u{1a}", "\u{fffd}", "\r", "\n", " ", "\t", "#", "-", ":"];
 
+/// whole lines that tools recognise by their exact text (armor lines, format markers, merge markers, document separators)
+pub const MAGIC_LINES: &[&str] = &[
+    "-----BEGIN PGP SIGNED MESSAGE-----", "-----BEGIN PGP SIGNATURE-----", "-----END PGP SIGNATURE-----", "-----BEGIN PGP MESSAGE-----", "Hash: SHA512",
+    "Format: https://www.debian.org/doc/packaging-manuals/copyright-format/1.0/", "#!/usr/bin/make -f", "---", "...", "<<<<<<< HEAD", "=======", ">>>>>>> x", "\u{c}", "-- ",
+];
+
+/// Now and then one of the magic lines is put on a line of its own somewhere in the text.
+pub fn magic_line(t: &mut Tape, mut text: String) -> String {
+    if !t.chance(1, 12) {
+        return text;
+    }
+    let starts: Vec<usize> = std::iter::once(0).chain(text.match_indices('\n').map(|(i, _)| i + 1)).collect();
+    let at = starts[t.below(starts.len())];
+    let line = *t.pick(MAGIC_LINES);
+    let nl = if t.chance(7, 8) { "\n" } else { "" };
+    text.insert_str(at, &format!("{}{}", line, nl));
+    text
+}
+
+/// A long document with a multi-byte character across a power-of-two byte offset.
+pub fn block_boundary_doc(t: &mut Tape) -> String {
+    let block = *t.pick(&[512usize, 1024, 4096, 8192, 16384, 65536]);
+    let k = t.range(1, 3);
+    let back = t.range(1, 3);
+    let c = *t.pick(&["é", "€", "😀", "\u{2011}"]);
+    let mut text = String::from("A: ");
+    let filler = *t.pick(&["x", "y z", "ab\n "]);
+    while text.len() + back < block * k {
+        let room = block * k - back - text.len();
+        if room >= filler.len() {
+            text.push_str(filler);
+        } else {
+            text.push_str(&"w"[..].repeat(room));
+        }
+    }
+    // `back` bytes before the boundary: the character (2-4 bytes) usually straddles it
+    for _ in 0..t.range(1, 3) {
+        text.push_str(c);
+    }
+    text.push_str("\nB: c\n");
+    text
+}
+
 pub fn edge_decorate(t: &mut Tape, text: String) -> String {
+    let text = magic_line(t, text);
     match t.below(12) {
         0 => format!("{}{}", t.pick(EDGE_CHARS), text),
         1 => format!("{}{}", text, t.pick(EDGE_CHARS)),
@@ -165,7 +209,7 @@ impl PropImpl for C01 {
         vec!["inputs are valid UTF-8 (&str API); Read-based entry points are fed the same bytes".into()]
     }
     fn expected_labels(&self) -> Vec<&'static str> {
-        vec!["linestart/KEYCH", "linestart/MULTIBYTE", "linestart/CTRL", "linestart/DASH", "linestart/COLON", "linestart/HASH", "linestart/SP", "linestart/TAB", "linestart/LF", "linestart/CR", "afterindent/HASH", "afterindent/COLON", "afterindent/MULTIBYTE", "inkey/COLON", "inkey/MULTIBYTE", "inkey/CR", "invalue/CR", "invalue/MULTIBYTE", "incomment/CR", "tolerant-reader-reports-errors", "error-free", "origin:mutated-doc", "origin:multi-byte-character-across-a-block-boundary", "origin:thousands-of-malformed-lines"]
+        vec!["has:magic-line", "linestart/KEYCH", "linestart/MULTIBYTE", "linestart/CTRL", "linestart/DASH", "linestart/COLON", "linestart/HASH", "linestart/SP", "linestart/TAB", "linestart/LF", "linestart/CR", "afterindent/HASH", "afterindent/COLON", "afterindent/MULTIBYTE", "inkey/COLON", "inkey/MULTIBYTE", "inkey/CR", "invalue/CR", "invalue/MULTIBYTE", "incomment/CR", "tolerant-reader-reports-errors", "error-free", "origin:mutated-doc", "origin:multi-byte-character-across-a-block-boundary", "origin:thousands-of-malformed-lines"]
     }
     fn budget(&self, tier: Tier) -> Budget {
         Budget { cases_per_lane: if tier == Tier::Quick { 20000 } else { 100_000 }, tape_max: 600, cpu_s: 10 }
@@ -185,25 +229,7 @@ impl PropImpl for C01 {
         if long && !ctx.light {
             // (B) a long document with a multi-byte character across a power-of-two byte offset: readers that take their
             // input from an io::Read in blocks must not decode the blocks separately
-            let block = *t.pick(&[512usize, 1024, 4096, 8192, 16384, 65536]);
-            let k = t.range(1, 3);
-            let back = t.range(1, 3);
-            let c = *t.pick(&["é", "€", "😀", "\u{2011}"]);
-            let mut text = String::from("A: ");
-            let filler = *t.pick(&["x", "y z", "ab\n "]);
-            while text.len() + back < block * k {
-                let room = block * k - back - text.len();
-                if room >= filler.len() {
-                    text.push_str(filler);
-                } else {
-                    text.push_str(&"w"[..].repeat(room));
-                }
-            }
-            // `back` bytes before the boundary: the character (2-4 bytes) usually straddles it
-            for _ in 0..t.range(1, 3) {
-                text.push_str(c);
-            }
-            text.push_str("\nB: c\n");
+            let text = block_boundary_doc(t);
             return Case { text, origin: "block-boundary" };
         }
         let many = t.chance(1, 60);
@@ -232,6 +258,7 @@ impl PropImpl for C01 {
     fn classify(&self, ctx: &mut Ctx, case: &Case) {
         ctx.set_hash(&case.text);
         transition_labels(ctx, &case.text);
+        ctx.label_if(case.text.lines().any(|l| MAGIC_LINES.contains(&l)), "has:magic-line");
         ctx.label(match case.origin {
             "enum" => "origin:enum",
             "mutated-doc" => "origin:mutated-doc",
